@@ -19,7 +19,7 @@ type Ent = (EntityReactionType, SystemCommand);
 //   iter_reactors(): all reactor ids          (multiset comparisons: no order among reactors is promised by the properties)
 // Shape: list of length L, all contents symbolic (4 kinds x 2 type ids x arbitrary reactor ids).
 // ---------------------------------------------------------------------------------------------------------------
-fn er_contract<const L: usize>()
+fn er_contract<const L: usize, const QUERIES: bool, const REMOVE: bool>()
 {
     let mut before = [(EntityReactionType::Insertion(tid(0)), SystemCommand(Entity::PLACEHOLDER)); L];
     let mut er = EntityReactors::default();
@@ -38,6 +38,7 @@ fn er_contract<const L: usize>()
     let rt = any_rtype();
     let id = any_sys();
     vlog!("REPLAY-INPUT list={:?} query rtype={:?} id={}", dbg(&before), rt, id.0.index());
+    if QUERIES {
     // iter_rtype / count / iter_reactors against the list (as multisets: no order among reactors is promised)
     let mut expect_n = 0usize;
     let mut j = 0;
@@ -54,6 +55,8 @@ fn er_contract<const L: usize>()
         j += 1;
     }
     assert!(er.iter_reactors().count() == L, "EntityReactors::iter_reactors: nothing else");
+    }
+    if !REMOVE { core::mem::forget(er); return; }
 
     er.remove(rt, id);
 
@@ -74,11 +77,15 @@ fn er_contract<const L: usize>()
     core::mem::forget(er);
 }
 
-//# id=K.entity_reactors.L0 props=C01,C06,C16 strength=bounded shape="per-entity list L=0" tier=quick fns=EntityReactors::insert,EntityReactors::remove,EntityReactors::count,EntityReactors::iter_rtype,EntityReactors::iter_reactors
-#[kani::proof] #[kani::unwind(3)] fn k_entity_reactors_l0() { er_contract::<0>(); }
-//# id=K.entity_reactors.L1 props=C01,C06,C16 strength=bounded shape="per-entity list L=1, all contents" tier=quick fns=EntityReactors::insert,EntityReactors::remove,EntityReactors::count,EntityReactors::iter_rtype,EntityReactors::iter_reactors
-#[kani::proof] #[kani::unwind(4)] fn k_entity_reactors_l1() { er_contract::<1>(); }
-//# id=K.entity_reactors.L2 props=C01,C06,C16 strength=bounded shape="per-entity list L=2, all contents" tier=quick fns=EntityReactors::insert,EntityReactors::remove,EntityReactors::count,EntityReactors::iter_rtype,EntityReactors::iter_reactors
-#[kani::proof] #[kani::unwind(5)] fn k_entity_reactors_l2() { er_contract::<2>(); }
-//# id=K.entity_reactors.L3 props=C01,C06,C16 strength=bounded shape="per-entity list L=3, all contents" tier=thorough fns=EntityReactors::insert,EntityReactors::remove,EntityReactors::count,EntityReactors::iter_rtype,EntityReactors::iter_reactors
-#[kani::proof] #[kani::unwind(6)] fn k_entity_reactors_l3() { er_contract::<3>(); }
+//# id=K.entity_reactors.remove.L0 props=C01,C06,C16 strength=bounded shape="per-entity list L=0" tier=quick fns=EntityReactors::insert,EntityReactors::remove
+#[kani::proof] #[kani::unwind(3)] fn k_entity_reactors_remove_l0() { er_contract::<0, false, true>(); }
+//# id=K.entity_reactors.remove.L1 props=C01,C06,C16 strength=bounded shape="per-entity list L=1, all contents" tier=quick fns=EntityReactors::insert,EntityReactors::remove
+#[kani::proof] #[kani::unwind(4)] fn k_entity_reactors_remove_l1() { er_contract::<1, false, true>(); }
+//# id=K.entity_reactors.remove.L2 props=C01,C06,C16 strength=bounded shape="per-entity list L=2, all contents" tier=quick fns=EntityReactors::insert,EntityReactors::remove
+#[kani::proof] #[kani::unwind(5)] fn k_entity_reactors_remove_l2() { er_contract::<2, false, true>(); }
+//# id=K.entity_reactors.remove.L3 props=C01,C06,C16 strength=bounded shape="per-entity list L=3, all contents" tier=thorough fns=EntityReactors::insert,EntityReactors::remove
+#[kani::proof] #[kani::unwind(6)] fn k_entity_reactors_remove_l3() { er_contract::<3, false, true>(); }
+//# id=K.entity_reactors.queries.L1 props=C01,C16 strength=bounded shape="per-entity list L=1, all contents" tier=quick fns=EntityReactors::insert,EntityReactors::count,EntityReactors::iter_rtype,EntityReactors::iter_reactors
+#[kani::proof] #[kani::unwind(4)] fn k_entity_reactors_queries_l1() { er_contract::<1, true, false>(); }
+//# id=K.entity_reactors.queries.L2 props=C01,C16 strength=bounded shape="per-entity list L=2, all contents" tier=quick fns=EntityReactors::insert,EntityReactors::count,EntityReactors::iter_rtype,EntityReactors::iter_reactors
+#[kani::proof] #[kani::unwind(5)] fn k_entity_reactors_queries_l2() { er_contract::<2, true, false>(); }
